@@ -1070,7 +1070,7 @@ def check_case(case, st_, collect=None):
 
 def random_shard(shard, nshards, seed, tier):
     st_ = core.Stats()
-    n = (14400 if tier == 'quick' else 240000) // nshards
+    n = (12800 if tier == 'quick' else 240000) // nshards
     _SCRATCH['dir'] = tempfile.mkdtemp(prefix='c14_')
     try:
         core.hyp_search(cases(), check_case, st_, max_examples=n, seed=seed, shrink=False)
